@@ -81,6 +81,12 @@ pub fn c07_probes() -> Vec<P> {
         P::UnionL(vec![sigplus.clone(), b.clone(), a.clone()]),
         P::InterL(vec![sigplus.clone(), a.clone(), ca.clone()]),
         P::Inter(a2(P::Concat(a.clone(), sigplus.clone())), a2(P::Concat(a.clone(), a.clone()))),
+        // constructions that return one of the predefined terms (the very first request a manager sees may be one)
+        P::Plus(sig.clone()),
+        P::Star(sig.clone()),
+        P::Concat(allchar.clone(), all.clone()),
+        P::Comp(a2(P::Plus(sig.clone()))),
+        P::Loop(sig.clone(), 1, 1),
     ]
 }
 
@@ -483,6 +489,10 @@ fn c10_regexes(tier: Tier) -> Vec<P> {
                 v.push(P::Concat(a2(P::Star(ch(z))), xy.clone()));
             }
             v.push(P::Concat(ch(x), a2(P::Concat(a2(P::SigPlus), ch(y)))));
+            // open-ended middles whose residual recurs at different positions
+            v.push(P::Concat(ch(x), a2(P::Concat(a2(P::Star(a2(P::Pow(a2(P::AllChar), 2)))), ch(y)))));
+            v.push(P::Concat(ch(x), a2(P::Concat(a2(P::Star(a2(P::Str(vec![a, b])))), ch(y)))));
+            v.push(P::Concat(ch(x), a2(P::Concat(a2(P::Comp(a2(P::Concat(all.clone(), ch(z_of(x, y)))))), ch(y)))));
             v.push(P::Diff(xy.clone(), a2(P::Concat(all.clone(), a2(P::Concat(ch(z_of(x, y)), all.clone()))))));
         }
     }
@@ -495,6 +505,33 @@ fn z_of(x: u32, y: u32) -> u32 {
 
 fn c10_subjects(tier: Tier) -> Vec<Vec<u32>> {
     crate::strs::all_strings(&[A, A + 1, A + 2], if tier == Tier::Thorough { 5 } else { 4 })
+}
+
+/// second set: characters that differ by a multiple of 256 (universe 4): level 1 over its ranges
+fn c10_regexes_u4() -> Vec<P> {
+    let fam = LevelFamily::new("c10/u4", Universe::new(4), &[(1, 1), (3, 3), (1, 3), (2, 4), (0, 4), (0, 1)], uops_quick(), usize::MAX);
+    let n1 = fam.l1.len();
+    let mut v: Vec<P> = (0..n1).map(|i| fam.get(i)).collect();
+    // concatenations and stars of level-1 terms built from the two interesting letters
+    let b = r(1, 1);
+    let l = r(3, 3);
+    let hi = r(2, 4);
+    for x in [b.clone(), l.clone(), hi.clone()] {
+        for y in [b.clone(), l.clone(), hi.clone()] {
+            v.push(P::Concat(a2(P::Plus(x.clone())), y.clone()));
+            v.push(P::Concat(x.clone(), a2(P::Star(y.clone()))));
+            v.push(P::Union(a2(P::Concat(x.clone(), y.clone())), y.clone()));
+        }
+    }
+    v
+}
+fn c10_subjects_u4(tier: Tier) -> Vec<Vec<u32>> {
+    crate::strs::all_strings(&[0x42, 0x142, 0x41, 0x242], if tier == Tier::Thorough { 5 } else { 4 })
+}
+
+/// the (universe, regexes, subjects) sets of a tier
+fn c10_sets(tier: Tier) -> Vec<(Universe, Vec<P>, Vec<Vec<u32>>)> {
+    vec![(Universe::new(0), c10_regexes(tier), c10_subjects(tier)), (Universe::new(4), c10_regexes_u4(), c10_subjects_u4(tier))]
 }
 const C10_REPL: [&[u32]; 3] = [&[], &[A + 2], &[A, A + 1]];
 
@@ -567,7 +604,7 @@ impl Engine for C10Engine {
     fn meta(&self, ctx: &Ctx) -> Meta {
         Meta {
             level: "model_checking",
-            rule: format!("{} regular expressions (level 1, all unary and a slice of binary level-2 programs, literal strings of length <= 4 under star/plus/opt/complement/union, x.*y patterns) built with the SMT-LIB wrappers x all {} subject strings over {{a,b,c}} x 3 replacement strings; expected results computed from the reference DFA by scanning (start, end) in lexicographic order: first match with possibly empty body for str_replace_re, repeated first non-empty match for str_replace_re_all; states = (regex, subject) pairs, transitions = replace calls; non-trivial = cases in which replace_re_all changes the subject", c10_regexes(ctx.tier).len(), c10_subjects(ctx.tier).len()),
+            rule: format!("{} regular expressions (level 1, all unary and a slice of binary level-2 programs, literal strings of length <= 4 under star/plus/opt/complement/union, x.*y patterns, open-ended middles; a second set over characters that differ by multiples of 256) built with the SMT-LIB wrappers x all {} subject strings over {{a,b,c}} (resp. {{0x41,0x42,0x142,0x242}}) x 3 replacement strings; expected results computed from the reference DFA by scanning (start, end) in lexicographic order: first match with possibly empty body for str_replace_re, repeated first non-empty match for str_replace_re_all; states = (regex, subject) pairs, transitions = replace calls; non-trivial = cases in which replace_re_all changes the subject", c10_regexes(ctx.tier).len() + c10_regexes_u4().len(), c10_subjects(ctx.tier).len()),
             assumptions: vec!["SMT-LIB 2.6 str.replace_re / str.replace_re_all: shortest leftmost match, empty match allowed only for replace_re".into()],
             exhaustive: true,
             space: "see rule".into(),
@@ -577,49 +614,50 @@ impl Engine for C10Engine {
         C10_NB
     }
     fn run_batch(&self, ctx: &Ctx, batch: usize, rep: &mut Report) {
-        let u = Universe::new(0);
-        let regs = c10_regexes(ctx.tier);
-        let subjects = c10_subjects(ctx.tier);
-        let mut cache = RefCache::new(u.clone());
-        for (k, p) in regs.iter().enumerate() {
-            if k % C10_NB != batch {
-                continue;
-            }
-            beat();
-            let rf = cache.dfa(p);
-            let tw = match guarded(|| build_wrap(&u, p)) {
-                Ok(t) => t,
-                Err(e) => {
-                    rep.violation("C10", "c10", json!({"prog": p.show(), "s": [], "t": []}), format!("building {} through the wrappers {}", p.show(), e));
+        let mut k = 0usize;
+        for (u, regs, subjects) in c10_sets(ctx.tier) {
+            let mut cache = RefCache::new(u.clone());
+            for p in regs.iter() {
+                k += 1;
+                if k % C10_NB != batch {
                     continue;
                 }
-            };
-            rep.inc("regexes");
-            for s in &subjects {
-                rep.inc("states");
-                for t in C10_REPL {
-                    rep.inc("evaluations");
-                    rep.add("transitions", 2);
-                    rep.add("impl_traces", 2);
-                    let (_, e2) = c10_expected(&u, &rf, s, t);
-                    if e2 != *s {
-                        rep.inc("nontrivial");
+                beat();
+                let rf = cache.dfa(p);
+                let tw = match guarded(|| build_wrap(&u, p)) {
+                    Ok(t) => t,
+                    Err(e) => {
+                        rep.violation("C10", "c10", json!({"universe": u.id, "prog": p.show(), "s": [], "t": []}), format!("building {} through the wrappers {}", p.show(), e));
+                        continue;
                     }
-                    if let Some(m) = c10_check(&u, p, &rf, tw, s, t) {
-                        rep.violation("C10", "c10", json!({"prog": p.show(), "s": s, "t": t}), m);
+                };
+                rep.inc("regexes");
+                for s in &subjects {
+                    rep.inc("states");
+                    for t in C10_REPL {
+                        rep.inc("evaluations");
+                        rep.add("transitions", 2);
+                        rep.add("impl_traces", 2);
+                        let (_, e2) = c10_expected(&u, &rf, s, t);
+                        if e2 != *s {
+                            rep.inc("nontrivial");
+                        }
+                        if let Some(m) = c10_check(&u, p, &rf, tw, s, t) {
+                            rep.violation("C10", "c10", json!({"universe": u.id, "prog": p.show(), "s": s, "t": t}), m);
+                        }
                     }
                 }
-            }
-            if rep.samples.len() < 3 && k > 500 {
-                let s = &subjects[subjects.len() / 2];
-                let (e1, e2) = c10_expected(&u, &rf, s, C10_REPL[2]);
-                let sj = json!({"regex": p.show(), "subject": s, "replacement": C10_REPL[2], "replace_re": e1, "replace_re_all": e2});
-                rep.sample(|| sj);
+                if rep.samples.len() < 3 && k > 500 {
+                    let s = &subjects[subjects.len() / 2];
+                    let (e1, e2) = c10_expected(&u, &rf, s, C10_REPL[2]);
+                    let sj = json!({"universe": u.id, "regex": p.show(), "subject": s, "replacement": C10_REPL[2], "replace_re": e1, "replace_re_all": e2});
+                    rep.sample(|| sj);
+                }
             }
         }
     }
     fn replay(&self, _ctx: &Ctx, c: &Value, rep: &mut Report) {
-        let u = Universe::new(0);
+        let u = Universe::new(c["universe"].as_u64().unwrap_or(0) as usize);
         let p = match P::parse(c["prog"].as_str().unwrap_or("")) {
             Ok(p) => p,
             Err(_) => return,
